@@ -881,7 +881,16 @@ def call_external(ex, f, args, kwargs, node):
         return r if f is list else tuple(r)
     if f is dict:
         if args and isinstance(args[0], SymDictU):
-            raise Unsupported('dict(unknown dict)')
+            # a shallow copy of a dict with unknown keys: a fresh dict with the same (unknown) items and the stores made so far
+            src = args[0]
+            d = SymDictU(ex.fresh_name(f'dict({src.label})'), src.key_factory, src.val_factory, prov='fresh')
+            d.nonempty = src.nonempty
+            d.updates = list(src.updates)
+            d.copy_of = src
+            for k_, v_ in kwargs.items():
+                d.updates.append((k_, v_))
+                d.nonempty = True
+            return d
         if args and isinstance(args[0], dict):
             d = dict(args[0])
             d.update(kwargs)
